@@ -47,7 +47,7 @@ def mat_set(config, cwd=None, catalogue=None):
             os.chdir(cwd)
         try:
             res = morph_kgc.materialize_set(config)
-            return {'lines': sorted(res, key=lambda x: str(x)), 'types': sorted({type(x).__name__ for x in res})}
+            return {'lines': sorted((x if isinstance(x, str) else 'NON-STRING:' + repr(x)) for x in res), 'types': sorted({type(x).__name__ for x in res})}
         except Exception as e:
             return _bucket(e)
     finally:
